@@ -74,6 +74,19 @@ def postorder_spans(n, acc):
     acc.append((n.production.prod_id, n.start_position, n.end_position))
 
 
+_TERMS = {}
+
+
+def t_terminals(case):
+    """Real terminals of the case's grammar (cached)."""
+    gtxt = case["grammar"]
+    if gtxt not in _TERMS:
+        g_ = Grammar.from_string(gtxt)
+        _TERMS.clear()
+        _TERMS[gtxt] = [tm for tm in g_.terminals.values() if tm.name not in ("STOP", "EMPTY")]
+    return _TERMS[gtxt]
+
+
 def py_checks(res, case, t, text, skip):
     terms = terminals_of(t)
     rebuilt = []
@@ -94,7 +107,31 @@ def py_checks(res, case, t, text, skip):
         # (lexical ambiguity, different token starts) share: attributable only for GLR on a
         # lexically overlapping terminal set when nothing but layout characters is lost
         strip = lambda s_: "".join(ch for ch in s_ if ch not in " \n\t")
-        if case["parser"] == "GLR" and case.get("lex_overlap") and \
+        # ... and only where tokens of DIFFERENT extent meet: at the first leaf whose layout is wrong, some
+        # terminal also matches with another length at its start, or another match ends where it ends but
+        # starts elsewhere (a head cloned for a second token of the SAME extent must keep its layout)
+        different_extent = False
+        prev_end = 0
+        for x in terms:
+            if x.layout_content != text[prev_end:x.start_position]:
+                lens_here = set()
+                for tm in t_terminals(case):
+                    for st_ in range(0, x.end_position):
+                        try:
+                            m = tm.recognizer(text, st_)
+                        except Exception:
+                            m = None
+                        if not m:
+                            continue
+                        if st_ == x.start_position:
+                            lens_here.add(len(m))
+                        elif st_ + len(m) == x.end_position:
+                            different_extent = True
+                if len(lens_here) >= 2:
+                    different_extent = True
+                break
+            prev_end = x.end_position
+        if case["parser"] == "GLR" and case.get("lex_overlap") and different_extent and \
                 strip("".join(rebuilt)) == strip(text[:last]) and \
                 "".join(x.value for x in terms) == strip(text[:last]):
             v["attribution"] = "glr-layout-on-shared-head"
